@@ -62,7 +62,8 @@ def run(ck):
         rs = release_sites(b)
         # a registration may exist exactly when self.poller (and, in Drop, self.file) is Some: with the
         # None edges of those tests removed, every path to the return must release
-        takes = [cs for cs in T.calls(b, name=("take", "as_ref", "is_some", "clone", "as_mut")) if T.path_has(b, cs.args[0], ".poller") or T.path_has(b, cs.args[0], ".file")]
+        # (in unwrap the file is taken out by the function itself: only "no poller recorded" excuses the release there)
+        takes = [cs for cs in T.calls(b, name=("take", "as_ref", "is_some", "clone", "as_mut")) if T.path_has(b, cs.args[0], ".poller") or (q != "Generic::unwrap" and T.path_has(b, cs.args[0], ".file"))]
         none_edges = []
         for sw in T.switches_on_expr(b, lambda e: e[0] == "discr"):
             e = b.expr(b.blocks[sw]["term"]["on"])
